@@ -20,4 +20,7 @@ Dump == PrintT(<<"CASE", ToJson(c)>>)
 
 (* the message-structure lattice, both orders of every related pair *)
 ASSUME PrintT(<<"MSGCASES", ToJson(MsgCases)>>)
+
+(* the product malformed key x degenerate signature x parsing entry points *)
+ASSUME PrintT(<<"KEYSIGCASES", ToJson(KeySigLattice)>>)
 =============================================================================
